@@ -1,6 +1,7 @@
 import Gp.Go.Basic
 import Gp.Model.SBuf
 import Gp.Model.Checksum
+import Gp.Model.Flow
 import Gp.Gen.Tcp
 /-
   Engine `ltcp`: executable model of layers/tcp.go (+ the MPTCP structs of
@@ -227,19 +228,34 @@ structure DecOut where
   err : Bool
   deriving Repr, DecidableEq
 
+/-- What the option loop works on: the three fields it assigns (`tcp.Options`, `tcp.Padding`,
+    `tcp.Multipath`); all other fields are untouched by the loop. -/
+structure OptSt where
+  options : List TcpOption := []
+  padding : Bytes := []
+  multipath : Bool := false
+  deriving Repr, DecidableEq
+
+/-- Outcome of the option loop. -/
+structure LoopOut where
+  st : OptSt
+  trunc : Bool
+  err : Bool
+  deriving Repr, DecidableEq
+
 /-- One iteration of the option loop: either the function returns / the loop breaks,
     or the loop continues after `data = data[n:]`. -/
 inductive Step where
-  | stop (o : DecOut)
-  | cont (l : Layer) (n : Nat)
+  | stop (o : LoopOut)
+  | cont (l : OptSt) (n : Nat)
   deriving Repr, DecidableEq
 
 /-- `tcp.Options = append(tcp.Options, o)`; `opt` points at the last element. -/
-def pushOpt (l : Layer) (o : TcpOption) : Layer := { l with options := l.options ++ [o] }
+def pushOpt (l : OptSt) (o : TcpOption) : OptSt := { l with options := l.options ++ [o] }
 
 /-- `return fmt.Errorf(...)` with the half-built option left in the layer. -/
-def errStep (l : Layer) (o : TcpOption) (trunc : Bool) : Step :=
-  .stop { layer := pushOpt l o, trunc := trunc, err := true }
+def errStep (l : OptSt) (o : TcpOption) (trunc : Bool) : Step :=
+  .stop { st := pushOpt l o, trunc := trunc, err := true }
 
 /-! ## MPTCP sub-options (tcp.go:354-533) -/
 
@@ -255,7 +271,7 @@ def u16If (c : Bool) (data : Sl) (a b : Nat) : Res Nat :=
 def u32If (c : Bool) (data : Sl) (a b : Nat) : Res Nat :=
   if c then (do let s ← data.slice a b; u32 s) else .ok 0
 
-def mpCapableOpt (l : Layer) (opt : TcpOption) (data : Sl) (n : Nat) (b2 : UInt8) : Res Step :=
+def mpCapableOpt (l : OptSt) (opt : TcpOption) (data : Sl) (n : Nat) (b2 : UInt8) : Res Step :=
   if n ≠ optionLenMpCapableSyn ∧ n ≠ optionLenMpCapableSynAck ∧ n ≠ optionLenMpCapableAck ∧
       n ≠ optionLenMpCapableAckData ∧ n ≠ optionLenMpCapableAckDataCSum then
     .ok (errStep l opt false)
@@ -270,7 +286,7 @@ def mpCapableOpt (l : Layer) (opt : TcpOption) (data : Sl) (n : Nat) (b2 : UInt8
       e := bit b3 8, f := bit b3 4, g := bit b3 2, h := bit b3 1,
       sendKey := sk, receivKey := rk, dataLength := dl, checksum := ck } }) n)
 
-def mpJoinOpt (l : Layer) (opt : TcpOption) (data : Sl) (n : Nat) (b2 : UInt8) : Res Step :=
+def mpJoinOpt (l : OptSt) (opt : TcpOption) (data : Sl) (n : Nat) (b2 : UInt8) : Res Step :=
   if n ≠ optionLenMpJoinSyn ∧ n ≠ optionLenMpJoinSynAck ∧ n ≠ optionLenMpJoinAck then
     .ok (errStep l opt false)
   else if n = optionLenMpJoinSyn then do
@@ -301,7 +317,7 @@ def optionMptcpDsslen (d : Dss) (csum : Bool) : Nat :=
     else len
   len % 256
 
-def dssOpt (v : Variant) (l : Layer) (opt : TcpOption) (data : Sl) (n : Nat) : Res Step :=
+def dssOpt (v : Variant) (l : OptSt) (opt : TcpOption) (data : Sl) (n : Nat) : Res Step :=
   if v.mptcpBounds && n < 4 then .ok (errStep l opt false) else do
     let b3 ← data.idx 3
     let d0 : Dss := { fF := bit b3 16, fm := bit b3 8, fM := bit b3 4, fa := bit b3 2, fA := bit b3 1 }
@@ -336,7 +352,7 @@ def isValidOptionMptcpAddAddrlen (length ver : Nat) (hmac : Bool) : Bool :=
     length == optionLenAddAddrv6 || length == optionLenAddAddrv6 + optionLenAddAddrPort
   else false
 
-def addAddrOpt (l : Layer) (opt : TcpOption) (data : Sl) (n : Nat) (b2 : UInt8) : Res Step :=
+def addAddrOpt (l : OptSt) (opt : TcpOption) (data : Sl) (n : Nat) (b2 : UInt8) : Res Step :=
   let low := b2.toNat % 16
   let ver := if low > 1 then mptcpVersion0 else mptcpVersion1
   let bitE := if low > 1 then false else bit b2 1
@@ -366,36 +382,36 @@ def readIds (data : Sl) : Nat → Nat → Res Bytes
     let r ← readIds data (i + 1) k
     pure (b :: r)
 
-def remAddrOpt (l : Layer) (opt : TcpOption) (data : Sl) (n : Nat) : Res Step :=
+def remAddrOpt (l : OptSt) (opt : TcpOption) (data : Sl) (n : Nat) : Res Step :=
   if n < optionLenRemAddr then .ok (errStep l opt false) else do
     let ids ← readIds data 3 ((n + 256 - 3) % 256)
     pure (.cont (pushOpt l { opt with remAddr := some { addrIDs := ids } }) n)
 
-def mpPrioOpt (l : Layer) (opt : TcpOption) (data : Sl) (n : Nat) (b2 : UInt8) : Res Step :=
+def mpPrioOpt (l : OptSt) (opt : TcpOption) (data : Sl) (n : Nat) (b2 : UInt8) : Res Step :=
   if n ≠ optionLenMpPrio ∧ n ≠ optionLenMpPrioAddr then .ok (errStep l opt false)
   else if n = optionLenMpPrioAddr then do
     let b3 ← data.idx 3
     pure (.cont (pushOpt l { opt with mpPrio := some { backup := bit b2 1, addrID := b3.toNat } }) n)
   else pure (.cont (pushOpt l { opt with mpPrio := some { backup := bit b2 1 } }) n)
 
-def mpFailOpt (l : Layer) (opt : TcpOption) (data : Sl) (n : Nat) : Res Step :=
+def mpFailOpt (l : OptSt) (opt : TcpOption) (data : Sl) (n : Nat) : Res Step :=
   if n ≠ optionLenMpFail then .ok (errStep l opt false) else do
     let s ← data.slice 4 optionLenMpFail
     let x ← u64 s
     pure (.cont (pushOpt l { opt with mpFail := some { dsn := x } }) n)
 
-def mpFCloseOpt (l : Layer) (opt : TcpOption) (data : Sl) (n : Nat) : Res Step :=
+def mpFCloseOpt (l : OptSt) (opt : TcpOption) (data : Sl) (n : Nat) : Res Step :=
   if n ≠ optionLenMpFClose then .ok (errStep l opt false) else do
     let s ← data.slice 4 optionLenMpFClose
     pure (.cont (pushOpt l { opt with mpFastClose := some { receivKey := s.vis } }) n)
 
-def mpTcpRstOpt (l : Layer) (opt : TcpOption) (data : Sl) (n : Nat) (b2 : UInt8) : Res Step :=
+def mpTcpRstOpt (l : OptSt) (opt : TcpOption) (data : Sl) (n : Nat) (b2 : UInt8) : Res Step :=
   if n ≠ optionLenMpTcpRst then .ok (errStep l opt false) else do
     let b3 ← data.idx 3
     pure (.cont (pushOpt l { opt with mpTcpRst := some { u := bit b2 8, v := bit b2 4, w := bit b2 2, t := bit b2 1, reason := b3.toNat } }) n)
 
 /-- `case TCPOptionKindMultipathTCP:` (tcp.go:347-533). `l` already has `Multipath = true`. -/
-def mptcpOpt (v : Variant) (l : Layer) (opt : TcpOption) (data : Sl) : Res Step :=
+def mptcpOpt (v : Variant) (l : OptSt) (opt : TcpOption) (data : Sl) : Res Step :=
   if v.mptcpBounds && data.len < 3 then .ok (errStep l opt true) else do
     let n8 ← data.idx 1
     let n := n8.toNat
@@ -418,7 +434,7 @@ def mptcpOpt (v : Variant) (l : Layer) (opt : TcpOption) (data : Sl) : Res Step 
       else pure (.cont (pushOpt l opt) n)
 
 /-- `default:` branch of the option switch (tcp.go:534-546). -/
-def genericOpt (l : Layer) (opt : TcpOption) (data : Sl) : Res Step :=
+def genericOpt (l : OptSt) (opt : TcpOption) (data : Sl) : Res Step :=
   if data.len < 2 then .ok (errStep l opt true) else do
     let n8 ← data.idx 1
     let n := n8.toNat
@@ -430,12 +446,12 @@ def genericOpt (l : Layer) (opt : TcpOption) (data : Sl) : Res Step :=
       pure (.cont (pushOpt l { opt with optionData := d.vis }) n)
 
 /-- Body of `for len(data) > 0 { … }` up to (not including) `data = data[opt.OptionLength:]`. -/
-def optStep (v : Variant) (l : Layer) (data : Sl) : Res Step := do
+def optStep (v : Variant) (l : OptSt) (data : Sl) : Res Step := do
   let k ← data.idx 0
   let opt : TcpOption := { optionType := k.toNat }
   if k.toNat = tCPOptionKindEndList then do
     let p ← data.sliceFrom 1
-    pure (.stop { layer := pushOpt { l with padding := p.vis } { opt with optionLength := 1 },
+    pure (.stop { st := pushOpt { l with padding := p.vis } { opt with optionLength := 1 },
                   trunc := false, err := false })
   else if k.toNat = tCPOptionKindNop then
     pure (.cont (pushOpt l { opt with optionLength := 1 }) 1)
@@ -446,9 +462,9 @@ def optStep (v : Variant) (l : Layer) (data : Sl) : Res Step := do
 /-- The option loop.  `fuel` bounds the number of iterations; running out of fuel while data
     is left stands for a loop that does not terminate and is reported as `.panic .explicit`
     (proved unreachable when `fuel ≥ len(data)`: every iteration consumes ≥ 1 byte). -/
-def optLoop (v : Variant) : Nat → Layer → Sl → Res DecOut
+def optLoop (v : Variant) : Nat → OptSt → Sl → Res LoopOut
   | fuel, l, data =>
-    if data.vis.length = 0 then .ok { layer := l, trunc := false, err := false }
+    if data.vis.length = 0 then .ok { st := l, trunc := false, err := false }
     else match fuel with
       | 0 => .panic .explicit
       | fuel + 1 =>
@@ -498,9 +514,11 @@ def decodeFromBytes (v : Variant) (old : Layer) (data : Sl) : Res DecOut :=
       else do
         let c ← data.sliceTo dataStart
         let p ← data.sliceFrom dataStart
-        let l2 := { l1 with contents := c.vis, payload := p.vis }
         let od ← data.slice 20 dataStart
-        optLoop v od.len l2 od
+        let r ← optLoop v od.len { multipath := l1.multipath } od
+        pure { layer := { l1 with contents := c.vis, payload := p.vis, options := r.st.options,
+                                  padding := r.st.padding, multipath := r.st.multipath },
+               trunc := r.trunc, err := r.err }
 
 /-- Direct DecodeFromBytes on `data` living in a buffer whose spare capacity holds `foreign`. -/
 def decode (v : Variant) (old : Layer) (data foreign : Bytes) : Res DecOut :=
@@ -684,18 +702,13 @@ def serializeTcp (l : Layer) (b : SBuf.SBuf) (fix csum : Bool) : Res (SBuf.SBuf 
 
 /-! ## TransportFlow, VerifyChecksum -/
 
-structure Flow where
-  typ : String
-  src : Bytes
-  dst : Bytes
-  deriving Repr, DecidableEq
+/-- layers/endpoints.go: `EndpointTCPPort = gopacket.RegisterEndpointType(4, …)` (a `var`, hence
+    not extractable as a constant; the adapter prints the number, so a change is seen). -/
+def endpointTCPPort : Int := 4
 
-def Flow.reverse (f : Flow) : Flow := { f with src := f.dst, dst := f.src }
-
-/-- gopacket.NewFlow(EndpointTCPPort, t.sPort, t.dPort): panics above MaxEndpointSize (16). -/
-def transportFlow (l : Layer) : Res Flow :=
-  if l.sPort.length > 16 ∨ l.dPort.length > 16 then .panic .explicit
-  else .ok { typ := "TCP", src := l.sPort, dst := l.dPort }
+/-- (*TCP).TransportFlow = gopacket.NewFlow(EndpointTCPPort, t.sPort, t.dPort), over the shared
+    model of flows.go (panics above MaxEndpointSize). -/
+def transportFlow (l : Layer) : Res Gp.Flow.Flow := Gp.Flow.newFlow endpointTCPPort l.sPort l.dPort
 
 structure Verify where
   valid : Bool
@@ -751,55 +764,66 @@ def deref {α} : Option α → Res α
   | some a => .ok a
   | none => .panic .nilDeref
 
-/-- TCPOption.String.  ADD_ADDR prints a net.IP with `%v`; its text is outside the model, the
-    renderer returns the part of the string before the address (the dereferences are the same). -/
+/-- `hd`: " 0x" ++ hex of the option data (empty when there is none) -/
+def optHd (t : TcpOption) : String :=
+  if t.optionData.length > 0 then " 0x" ++ hexStr t.optionData else ""
+
+/-- the final `return fmt.Sprintf("TCPOption(%s:%s)", t.OptionType, hd)` -/
+def optDflt (t : TcpOption) : Res String :=
+  .ok ("TCPOption(" ++ kindName t.optionType ++ ":" ++ optHd t ++ ")")
+
+/-- `case TCPOptionKindMultipathTCP:` of TCPOption.String.  ADD_ADDR prints a net.IP with `%v`;
+    its text is outside the model, the renderer returns the part of the string before the
+    address (the dereferences are the same). -/
+def mptcpString (v : Variant) (t : TcpOption) : Res String :=
+  let sub := t.optionMultipath
+  if sub = mPTCPSubtypeMPCAPABLE then
+    if v.renderNilSafe && t.mpCapable.isNone then optDflt t else do
+      let c ← deref t.mpCapable
+      pure ("MPTCPOption(" ++ subtypeName sub ++ " Version " ++ toString c.version ++ ")")
+  else if sub = mPTCPSubtypeMPJOIN then
+    if v.renderNilSafe && t.mpJoin.isNone then optDflt t else do
+      let c ← deref t.mpJoin
+      pure ("MPTCPOption(" ++ subtypeName sub ++ " Backup " ++ boolStr c.backup ++ ";Address ID " ++
+            toString c.addrID ++ ")")
+  else if sub = mPTCPSubtypeDSS then .ok ("MPTCPOption(" ++ subtypeName sub ++ ")")
+  else if sub = mPTCPSubtypeMPPRIO then
+    if v.renderNilSafe && t.mpPrio.isNone then optDflt t else do
+      let c ← deref t.mpPrio
+      pure ("MPTCPOption(" ++ subtypeName sub ++ " Backup " ++ boolStr c.backup ++ ";Address ID " ++
+            toString c.addrID ++ ")")
+  else if sub = mPTCPSubtypeADDADDR then
+    if v.renderNilSafe && t.addAddr.isNone then optDflt t else do
+      let c ← deref t.addAddr
+      pure ("MPTCPOption(" ++ subtypeName sub ++ " Address ID " ++ toString c.addrID ++ ";Address ")
+  else if sub = mPTCPSubtypeREMOVEADDR then
+    if v.renderNilSafe && t.remAddr.isNone then optDflt t else do
+      let c ← deref t.remAddr
+      pure ("MPTCPOption(" ++ subtypeName sub ++ " Address ID " ++ idsStr c.addrIDs ++ ")")
+  else if sub = mPTCPSubtypeMPFASTCLOSE then .ok ("MPTCPOption(" ++ subtypeName sub ++ ")")
+  else if sub = mPTCPSubtypeMPTCPRST then
+    if v.renderNilSafe && t.mpTcpRst.isNone then optDflt t else do
+      let c ← deref t.mpTcpRst
+      pure ("MPTCPOption(" ++ subtypeName sub ++ " Transient " ++ boolStr c.t ++ "; Reason " ++
+            toString c.reason ++ ")")
+  else if sub = mPTCPSubtypeMPFAIL then .ok ("MPTCPOption(" ++ subtypeName sub ++ ")")
+  else optDflt t
+
+/-- TCPOption.String (tcp.go:120-186). -/
 def optionString (v : Variant) (t : TcpOption) : Res String :=
-  let hd := if t.optionData.length > 0 then " 0x" ++ hexStr t.optionData else ""
-  let dflt : Res String := .ok ("TCPOption(" ++ kindName t.optionType ++ ":" ++ hd ++ ")")
   if t.optionType = tCPOptionKindMSS then
     match t.optionData with
-    | a :: b :: _ => .ok ("TCPOption(" ++ kindName t.optionType ++ ":" ++ toString (be16 a b) ++ hd ++ ")")
-    | _ => dflt
+    | a :: b :: _ =>
+      .ok ("TCPOption(" ++ kindName t.optionType ++ ":" ++ toString (be16 a b) ++ optHd t ++ ")")
+    | _ => optDflt t
   else if t.optionType = tCPOptionKindTimestamps then
     match t.optionData with
     | [a, b, c, d, e, f, g, h] =>
       .ok ("TCPOption(" ++ kindName t.optionType ++ ":" ++ toString (be32 a b c d) ++ "/" ++
-            toString (be32 e f g h) ++ hd ++ ")")
-    | _ => dflt
-  else if t.optionType = tCPOptionKindMultipathTCP then
-    let sub := t.optionMultipath
-    if sub = mPTCPSubtypeMPCAPABLE then
-      if v.renderNilSafe && t.mpCapable.isNone then dflt else do
-        let c ← deref t.mpCapable
-        pure ("MPTCPOption(" ++ subtypeName sub ++ " Version " ++ toString c.version ++ ")")
-    else if sub = mPTCPSubtypeMPJOIN then
-      if v.renderNilSafe && t.mpJoin.isNone then dflt else do
-        let c ← deref t.mpJoin
-        pure ("MPTCPOption(" ++ subtypeName sub ++ " Backup " ++ boolStr c.backup ++ ";Address ID " ++
-              toString c.addrID ++ ")")
-    else if sub = mPTCPSubtypeDSS then .ok ("MPTCPOption(" ++ subtypeName sub ++ ")")
-    else if sub = mPTCPSubtypeMPPRIO then
-      if v.renderNilSafe && t.mpPrio.isNone then dflt else do
-        let c ← deref t.mpPrio
-        pure ("MPTCPOption(" ++ subtypeName sub ++ " Backup " ++ boolStr c.backup ++ ";Address ID " ++
-              toString c.addrID ++ ")")
-    else if sub = mPTCPSubtypeADDADDR then
-      if v.renderNilSafe && t.addAddr.isNone then dflt else do
-        let c ← deref t.addAddr
-        pure ("MPTCPOption(" ++ subtypeName sub ++ " Address ID " ++ toString c.addrID ++ ";Address ")
-    else if sub = mPTCPSubtypeREMOVEADDR then
-      if v.renderNilSafe && t.remAddr.isNone then dflt else do
-        let c ← deref t.remAddr
-        pure ("MPTCPOption(" ++ subtypeName sub ++ " Address ID " ++ idsStr c.addrIDs ++ ")")
-    else if sub = mPTCPSubtypeMPFASTCLOSE then .ok ("MPTCPOption(" ++ subtypeName sub ++ ")")
-    else if sub = mPTCPSubtypeMPTCPRST then
-      if v.renderNilSafe && t.mpTcpRst.isNone then dflt else do
-        let c ← deref t.mpTcpRst
-        pure ("MPTCPOption(" ++ subtypeName sub ++ " Transient " ++ boolStr c.t ++ "; Reason " ++
-              toString c.reason ++ ")")
-    else if sub = mPTCPSubtypeMPFAIL then .ok ("MPTCPOption(" ++ subtypeName sub ++ ")")
-    else dflt
-  else dflt
+            toString (be32 e f g h) ++ optHd t ++ ")")
+    | _ => optDflt t
+  else if t.optionType = tCPOptionKindMultipathTCP then mptcpString v t
+  else optDflt t
 
 /-- Rendering every option of the layer (what packet.String()/LayerString do through
     fmt's Stringer support); the first panic wins. -/
